@@ -65,6 +65,9 @@ def showMVErr : MultiVerifyErr → String
   | .rootMismatch => "RootMismatch"
   | .pathsOutOfOrder => "PathsOutOfOrder"
   | .tooManySiblings => "TooManySiblings"
+  | .tooFewSiblings => "TooFewSiblings"
+  | .invalidDepth => "InvalidDepth"
+  | .pathPrefixOfAnother => "PathPrefixOfAnother"
 
 def showMVUErr : MultiVUErr → String
   | .opsOutOfOrder => "OpsOutOfOrder"
